@@ -1,6 +1,7 @@
 package engine
 
 import (
+	"sort"
 	"fmt"
 	"regexp"
 	"strconv"
@@ -140,7 +141,7 @@ func bindable(md protoreflect.MessageDescriptor, prefix string, depth int) []bin
 	return out
 }
 
-var literals = []string{"a", "z", "items", "v1", "v1.2", "my-seg", "x_y", "Books", "b2b", "n.m-o"}
+var literals = []string{"a", "z", "items", "v1", "v1.2", "my-seg", "x_y", "Books", "b2b", "n.m-o", "2fa", "_ah", "-", "42", ".well-known"}
 
 // genRule builds a valid rule from the conservative subset, together with a
 // path instantiated from it and the bindings that path implies.
@@ -394,6 +395,33 @@ func genC16(r *core.Rand, run int) *MuxScenario {
 			if other.Service+"."+other.Name != rule.Selector {
 				rule = RuleSpec{Selector: rule.Selector, Verb: "custom:*", Template: "/" + other.Service + "/" + other.Name, Body: "*", Conflict: true}
 			}
+		case 10: // beside an earlier rule's variable, the literal its probe instantiates the variable with - under another verb
+			if len(sc.Rules) > 0 {
+				prev := sc.Rules[r.Intn(len(sc.Rules))]
+				if prev.Invalid == "" && !prev.Long && !prev.Conflict && prev.Path != "" && len(prev.Additional) == 0 {
+					var names []string
+					for f, v := range prev.Want {
+						if strings.Contains(prev.Template, "/{"+f+"}") && !strings.Contains(v, "/") {
+							names = append(names, f)
+						}
+					}
+					sort.Strings(names)
+					if len(names) > 0 {
+						f := names[r.Intn(len(names))]
+						t := strings.Replace(prev.Template, "/{"+f+"}", "/"+prev.Want[f], 1)
+						t = normTemplate(t) // the other variables of prev need not exist in this method's request
+						verbs := []string{"get", "put", "post", "delete", "patch"}
+						verb := verbs[r.Intn(len(verbs))]
+						if verb == prev.Verb {
+							verb = verbs[(r.Intn(len(verbs)-1)+1+indexOf(verbs, verb))%len(verbs)]
+						}
+						rule = RuleSpec{Selector: rule.Selector, Verb: verb, Template: t, Path: prev.Path, Want: map[string]string{}}
+						if verb == "put" || verb == "post" || verb == "patch" {
+							rule.Body = "*"
+						}
+					}
+				}
+			}
 		case 6: // re-declare the implicit /Service/Method path for the same method
 			rule = RuleSpec{Selector: rule.Selector, Verb: "post", Body: "*", Template: "/" + m.Service + "/" + m.Name, Path: "/" + m.Service + "/" + m.Name, Want: map[string]string{}}
 			switch r.Intn(4) {
@@ -425,7 +453,13 @@ func genC16(r *core.Rand, run int) *MuxScenario {
 	model := newRuleModel(sc)
 	id := 1
 	for k, op := range ops {
-		model.register(op.Service)
+		// (the verdicts the model does not predict - long templates, kind "*"
+		// overlaps - are taken as accepted here; the oracle judges a probe only
+		// if its own run of the model, which follows what happened, holds the
+		// probed service as accepted)
+		if ok, _, _ := model.wouldAccept(op.Service); ok {
+			model.register(op.Service)
+		}
 		for _, pr := range model.probes() {
 			pr.ID, pr.Round = id, k+1
 			sc.Reqs = append(sc.Reqs, pr)
@@ -460,6 +494,7 @@ type ruleModel struct {
 	accepted map[string]bool    // services whose registration was accepted
 	bound    map[binding]string // verb+template -> method selector
 	live     []RuleSpec         // rules (and additional bindings) that are routable now
+	tainted  map[string]bool    // services whose routes overlap another method's through kind "*"
 }
 
 func newRuleModel(sc *MuxScenario) *ruleModel {
@@ -468,7 +503,6 @@ func newRuleModel(sc *MuxScenario) *ruleModel {
 
 func serviceOf(selector string) string { return selector[:strings.LastIndex(selector, ".")] }
 
-// wouldAccept is the reference recogniser's verdict on registering service.
 // hasLong: the service carries a rule whose verdict the model does not predict.
 func (m *ruleModel) hasLong(service string) bool {
 	for _, rule := range m.sc.Rules {
@@ -494,15 +528,40 @@ func implicitBindings(service string) map[binding]string {
 	return out
 }
 
-func (m *ruleModel) wouldAccept(service string) (bool, string) {
+// overlaps reports the owners of bindings that share key's template, belong to
+// another method, and meet key only through kind "*" ("every verb" on one side,
+// one verb on the other). Whether that is a conflict the property does not say
+// (larking refuses it in one registration order and routes the specific verb
+// first in the other), so the model predicts neither verdict there.
+func overlaps(bound map[binding]string, key binding, owner string) []string {
+	var out []string
+	for k, o := range bound {
+		if k.tmpl != key.tmpl || o == owner || k.verb == key.verb {
+			continue
+		}
+		if k.verb == "*" || key.verb == "*" {
+			out = append(out, o)
+		}
+	}
+	sort.Strings(out)
+	return out
+}
+
+// wouldAccept is the reference recogniser's verdict on registering service;
+// unsure lists the methods whose bindings overlap with the service's only
+// through kind "*" when nothing else decides the verdict.
+func (m *ruleModel) wouldAccept(service string) (ok bool, why string, unsure []string) {
 	bound := map[binding]string{}
 	for k, v := range m.bound {
 		bound[k] = v
 	}
 	for k, v := range implicitBindings(service) {
 		if owner, ok := bound[k]; ok && owner != v {
-			return false, "conflict on the implicit path " + k.tmpl + " with " + owner
+			return false, "conflict on the implicit path " + k.tmpl + " with " + owner, nil
 		}
+	}
+	for k, v := range implicitBindings(service) {
+		unsure = append(unsure, overlaps(bound, k, v)...)
 		bound[k] = v
 	}
 	for _, rule := range m.sc.Rules {
@@ -510,25 +569,23 @@ func (m *ruleModel) wouldAccept(service string) (bool, string) {
 			continue
 		}
 		if rule.Invalid != "" {
-			return false, rule.Invalid + " in " + rule.Template
+			return false, rule.Invalid + " in " + rule.Template, nil
 		}
 		all := append([]RuleSpec{rule}, rule.Additional...)
 		for _, b := range all {
 			key := bindingOf(&b)
 			if owner, ok := bound[key]; ok && owner != rule.Selector {
-				return false, "conflict on " + b.Verb + " " + b.Template + " with " + owner
+				return false, "conflict on " + b.Verb + " " + b.Template + " with " + owner, nil
 			}
+			unsure = append(unsure, overlaps(bound, key, rule.Selector)...)
 			bound[key] = rule.Selector
 		}
 	}
-	return true, ""
+	return true, "", unsure
 }
 
-func (m *ruleModel) register(service string) bool {
-	ok, _ := m.wouldAccept(service)
-	if !ok {
-		return false
-	}
+// register records an accepted registration (the caller has the verdict).
+func (m *ruleModel) register(service string) {
 	first := !m.accepted[service]
 	m.accepted[service] = true
 	for k, v := range implicitBindings(service) {
@@ -547,7 +604,18 @@ func (m *ruleModel) register(service string) bool {
 			}
 		}
 	}
-	return true
+}
+
+// taint: the routes of these services are not probed any more (a kind "*"
+// overlap was accepted: which of the two methods a verb reaches is not stated).
+func (m *ruleModel) taint(service string, owners []string) {
+	if m.tainted == nil {
+		m.tainted = map[string]bool{}
+	}
+	m.tainted[service] = true
+	for _, o := range owners {
+		m.tainted[serviceOf(o)] = true
+	}
 }
 
 // probes returns one request per live rule plus one implicit-path request per
@@ -669,11 +737,21 @@ func oracleRules(mr *muxRun, res *RunResult) *Violation {
 		if !rr.Done {
 			return violationf(prop, "operation-never-returned", "regsvc", "registration %d did not return", k)
 		}
-		want, why := model.wouldAccept(rr.Op.Service)
+		want, why, unsure := model.wouldAccept(rr.Op.Service)
 		if want && model.hasLong(rr.Op.Service) {
 			// beyond the token budget either verdict is fine (an error, never a
 			// panic - checked above); the model follows what happened
 			want, why = rr.Err == nil, "long template refused"
+		}
+		if want && len(unsure) > 0 {
+			// bindings that meet another method's only through kind "*": either
+			// verdict (see overlaps); if accepted, the services involved are no
+			// longer probed
+			cnt[cStarOverlap]++
+			want, why = rr.Err == nil, "kind * overlap refused"
+			if want {
+				model.taint(rr.Op.Service, unsure)
+			}
 		}
 		ctx := "accept"
 		if !want {
@@ -699,6 +777,12 @@ func oracleRules(mr *muxRun, res *RunResult) *Violation {
 				continue
 			}
 			p := rs.spec.Raw
+			if svc := serviceOf(p.Selector); !model.accepted[svc] || model.tainted[svc] || model.hasLong(svc) {
+				// generated on the assumption that an unpredicted verdict was
+				// "accepted"; what happened says otherwise
+				cnt[cProbeSkipped]++
+				continue
+			}
 			resp := rs.q.response()
 			pctx := "probe"
 			if len(p.Want) > 0 {
@@ -752,4 +836,13 @@ func rulesString(rules []RuleSpec) string {
 		parts = append(parts, s+"}")
 	}
 	return strings.Join(parts, " ")
+}
+
+func indexOf(xs []string, x string) int {
+	for i, v := range xs {
+		if v == x {
+			return i
+		}
+	}
+	return 0
 }
